@@ -46,6 +46,18 @@ def run(eng: Engine, ck: Check):
     dels = [(n, k_) for n, k_ in key_removals(gst.node, OS) if not isinstance(k_, ast.Constant)]
     ok = len(cp) == 1 and len(loops) == 1 and len(dels) == 1 and any(a is loops[0] for a in ancestors(dels[0][0])) and unparse(dels[0][1]) == unparse(loops[0].target) and \
         not [1 for n, k_ in key_removals(gst.node, OS) if isinstance(k_, ast.Constant) and k_.value not in unp]
+    if not ok and not cp:
+        # the same copy as one expression: {k: v for k, v in self.__dict__.items() if k not in self._UNPICKABLE_FIELDS}
+        for n in walk_local(gst.node):
+            if isinstance(n, ast.Assign) and len(n.targets) == 1 and isinstance(n.targets[0], ast.Name) and isinstance(n.value, ast.DictComp) and len(n.value.generators) == 1:
+                g_ = n.value.generators[0]
+                if isinstance(g_.target, ast.Tuple) and len(g_.target.elts) == 2 and unparse(g_.iter) == 'self.__dict__.items()' and \
+                        unparse(n.value.key) == unparse(g_.target.elts[0]) and unparse(n.value.value) == unparse(g_.target.elts[1]) and len(g_.ifs) == 1:
+                    t_ = g_.ifs[0]
+                    if isinstance(t_, ast.Compare) and len(t_.ops) == 1 and isinstance(t_.ops[0], ast.NotIn) and unparse(t_.left) == unparse(g_.target.elts[0]) and \
+                            unparse(t_.comparators[0]).endswith('._UNPICKABLE_FIELDS'):
+                        OS2 = n.targets[0].id
+                        ok = not [1 for n2, k_ in key_removals(gst.node, OS2) if not (isinstance(k_, ast.Constant) and k_.value in unp)]
     ck.ob('R-C17-FIELDS', gst, gst.node, '__getstate__ persists a copy of every attribute except the unpickable ones', ok, '', construct='getstate copies all but unpickable')
     sv = [n for n in walk_local(gst.node) if isinstance(n, ast.Assign) and "['state']" in unparse(n.targets[0])]
     ok = len(sv) == 1 and unparse(sv[0].value).endswith("['state'].VALUE")
